@@ -5,74 +5,37 @@ From Verif Require Import Lib WorldSpec WorldSpec2 LibSpec LibSpec2 WaitSpec Par
 From Coq Require Import Lia.
 Local Open Scope Z_scope.
 
-Lemma HN_drain_loop T c fuel : forall p s w r p' s' w', HN T c p w -> drain_loop fuel p s w = Ret (r, p', s') w' -> HN T c p' w'.
+Lemma hq_ext0 L L' own w : (forall id, L id = L' id) -> hq L own w -> hq L' own w.
 Proof.
-  induction fuel as [|f IH]; intros p s w r p' s' w' H E; cbn [drain_loop] in E; [discriminate|].
-  apply bind_inv in E as ([r1 evs] & w1 & E1 & E). cbv beta iota in E.
-  pose proof (HN_step _ _ _ _ _ _ (HI_neutral _ _ _ _ _ _ _ (fc_reproc_poll _ _) (proj1 H) E1) (nk_run _ _ _ _ (nk_reproc_poll _ _) ltac:(apply H) E1) H) as H1.
-  destruct (r1 <? 0). { apply ret_inv in E as [E ->]. injection E as _ -> _. exact H1. }
-  cbv zeta in E. destruct (has_bit _ REPROC_EVENT_DEADLINE). { apply ret_inv in E as [E ->]. injection E as _ -> _. exact H1. }
-  apply bind_inv in E as ([[r2 rs] p2] & w2 & E2 & E). cbv beta iota in E.
-  pose proof (HN_step _ _ _ _ _ _ (HI_reproc_read _ _ _ _ _ _ _ _ _ _ _ (proj1 H1) E2) (nk_run _ _ _ _ (nk_reproc_read _ _ _ _) ltac:(apply H1) E2) H1) as H2.
-  destruct ((r2 <? 0) && negb (r2 =? REPROC_EPIPE)). { apply ret_inv in E as [E ->]. injection E as _ -> _. exact H2. }
-  cbv zeta in E. destruct (sink_call _ _ _ _ s) as [v s2].
-  destruct (negb (v =? 0)). { apply ret_inv in E as [E ->]. injection E as _ -> _. exact H2. }
-  exact (IH _ _ _ _ _ _ _ H2 E).
-Qed.
-Lemma HN_reproc_drain T c fuel p s w r p' s' w' : HN T c p w -> reproc_drain fuel p s w = Ret (r, p', s') w' -> HN T c p' w'.
-Proof.
-  intros H E. unfold reproc_drain in E. destruct (sink_call 0 _ _ _ s) as [v s1].
-  destruct (negb (v =? 0)). { apply ret_inv in E as [E ->]. injection E as _ -> _. exact H. }
-  destruct (sink_call 1 _ _ _ s1) as [v2 s2].
-  destruct (negb (v2 =? 0)). { apply ret_inv in E as [E ->]. injection E as _ -> _. exact H. }
-  exact (HN_drain_loop _ _ _ _ _ _ _ _ _ _ H E).
-Qed.
-Lemma O_drain_loop L own fuel : forall p s w r p' s' w', hq L own w -> drain_loop fuel p s w = Ret (r, p', s') w' -> hq L own w' /\ h_blk p' = h_blk p.
-Proof.
-  induction fuel as [|f IH]; intros p s w r p' s' w' H E; cbn [drain_loop] in E; [discriminate|].
-  apply bind_inv in E as ([r1 evs] & w1 & E1 & E). cbv beta iota in E.
-  pose proof (O_reproc_poll _ _ _ _ _ _ _ H E1) as H1.
-  destruct (r1 <? 0). { apply ret_inv in E as [E ->]. injection E as _ -> _. auto. }
-  cbv zeta in E. destruct (has_bit _ REPROC_EVENT_DEADLINE). { apply ret_inv in E as [E ->]. injection E as _ -> _. auto. }
-  apply bind_inv in E as ([[r2 rs] p2] & w2 & E2 & E). cbv beta iota in E.
-  pose proof (H_neutral _ _ _ _ _ _ (hk_reproc_read false _ _ _ _) H1 E2) as H2.
-  pose proof (post_reproc_read_blk _ _ _ _ _ _ _ E2) as B2. cbn [snd] in B2.
-  destruct ((r2 <? 0) && negb (r2 =? REPROC_EPIPE)). { apply ret_inv in E as [E ->]. injection E as _ -> _. auto. }
-  cbv zeta in E. destruct (sink_call _ _ _ _ s) as [v s2].
-  destruct (negb (v =? 0)). { apply ret_inv in E as [E ->]. injection E as _ -> _. auto. }
-  destruct (IH _ _ _ _ _ _ _ H2 E) as [A B]. split; [exact A|congruence].
-Qed.
-Lemma O_reproc_drain L own fuel p s w r p' s' w' : hq L own w -> reproc_drain fuel p s w = Ret (r, p', s') w' -> hq L own w' /\ h_blk p' = h_blk p.
-Proof.
-  intros H E. unfold reproc_drain in E. destruct (sink_call 0 _ _ _ s) as [v s1].
-  destruct (negb (v =? 0)). { apply ret_inv in E as [E ->]. injection E as _ -> _. auto. }
-  destruct (sink_call 1 _ _ _ s1) as [v2 s2].
-  destruct (negb (v2 =? 0)). { apply ret_inv in E as [E ->]. injection E as _ -> _. auto. }
-  exact (O_drain_loop _ _ _ _ _ _ _ _ _ _ H E).
+  intros HE (Hm & Hb & Hl & Ho & Hn & Hf). split; [exact Hm|]. split; [exact Hb|].
+  split; [intros id; rewrite <- HE; apply Hl|]. split; [intros id X; rewrite <- HE; apply Ho, X|]. split; [exact Hn|].
+  intros id X. rewrite <- HE. apply Hf, X.
 Qed.
 
-(* THE THEOREM: a whole run leaves no descriptor behind *)
-Theorem run_ex_restores_descriptor_table fuel argv o src s w x w' :
-  WorldSpec2.wf w -> 0 <= w_cur w -> NB w ->
-  reproc_run_ex fuel argv o src s w = Ret x w' -> pr_fds (curp w') = pr_fds (curp w).
+
+(* a whole run, whatever the caller's other handles own at that moment ([T], empty [own] after re-basing) *)
+Lemma run_ex_fq T c fuel argv o src s w x w' :
+  fqn T [] c w -> 0 <= c -> NB w ->
+  reproc_run_ex fuel argv o src s w = Ret x w' -> fqn T [] c w' /\ NB w'.
 Proof.
-  intros W Hpos Hnb E. unfold reproc_run_ex in E.
-  destruct (o_fork o). { apply ret_inv in E as [_ ->]. reflexivity. }
+  intros H0 Hpos Hnb E. unfold reproc_run_ex in E.
+  destruct (o_fork o). { apply ret_inv in E as [_ ->]. auto. }
   apply bind_inv in E as (np & w1 & E1 & E). unfold reproc_new in E1.
   apply bind_inv in E1 as (b & w1' & Ea & E1).
-  pose proof (fc_run _ _ _ _ (fc_heap_alloc _ _ _) W Ea) as (W1 & C1 & T1).
-  pose proof (pc_run _ _ _ _ (pc_heap_alloc _ _ _) W Ea) as P1.
-  change (pr_fds (curp w)) with (tb w). rewrite <- T1.
+  pose proof (N_neutral _ _ _ _ _ _ _ (fc_heap_alloc _ _ _) H0 Ea) as H1q.
+  pose proof (pc_run _ _ _ _ (pc_heap_alloc _ _ _) ltac:(apply H0) Ea) as P1.
+  pose proof (NB_mono _ _ P1 Hnb) as Hnb1.
   destruct (b =? 0); apply ret_inv in E1 as [-> ->].
-  { apply ret_inv in E as [_ ->]. reflexivity. }
-  assert (H1 : HN (tb w1') (w_cur w1') (rp_new b) w1').
-  { apply HN_fresh; [exact W1|rewrite C1; exact Hpos|exact (NB_mono _ _ P1 Hnb)|apply fresh_rp_new]. }
-  assert (Hk : forall q : rp, kp (w_cur w1') (fun w0 : world => Crash (A := unit) crash_unmodelled w0)) by (intros _; apply kp_crash).
+  { apply ret_inv in E as [_ ->]. auto. }
+  assert (H1 : HN T c (rp_new b) w1').
+  { split; [|exact Hnb1]. split. { unfold POWN. cbn [h_in h_out h_err Lib.h_exit rp_new]. exact H1q. }
+    split; [exact Hpos|]. split; [reflexivity|]. split; [reflexivity|]. split; [intros _; repeat split|]. intros X. exfalso. apply X. reflexivity. }
+  assert (Hk : forall q : rp, kp c (fun w0 : world => Crash (A := unit) crash_unmodelled w0)) by (intros _; apply kp_crash).
   apply bind_inv in E as ([r2 p2] & w2 & E2 & E). cbv beta iota in E.
   pose proof (HN_reproc_start _ _ _ _ _ _ _ _ _ _ _ H1 Hk E2) as H2.
-  assert (Fin : forall p3 w3 (v : Z * sinkst), HN (tb w1') (w_cur w1') p3 w3 -> (reproc_destroy p3 ;> ret v) w3 = Ret x w' -> pr_fds (curp w') = tb w1').
+  assert (Fin : forall p3 w3 (v : Z * sinkst), HN T c p3 w3 -> (reproc_destroy p3 ;> ret v) w3 = Ret x w' -> fqn T [] c w' /\ NB w').
   { intros p3 w3 v H3 E3. apply bind_inv in E3 as (u & w4 & E4 & E3). apply ret_inv in E3 as [_ ->].
-    exact (reproc_destroy_restores _ _ _ _ _ _ (proj1 H3) E4). }
+    exact (HN_reproc_destroy _ _ _ _ _ _ H3 E4). }
   destruct (r2 <? 0); [exact (Fin _ _ _ H2 E)|].
   apply bind_inv in E as ([[r3 p3] s3] & w3 & E3 & E). cbv beta iota in E.
   pose proof (HN_reproc_drain _ _ _ _ _ _ _ _ _ _ H2 E3) as H3.
@@ -80,22 +43,29 @@ Proof.
   apply bind_inv in E as ([r4 p4] & w4 & E4 & E). cbv beta iota in E.
   exact (Fin _ _ _ (HN_reproc_stop _ _ _ _ _ _ _ _ H3 E4) E).
 Qed.
-
-(* ... and no block *)
-Theorem run_ex_releases_memory fuel argv o src s w x w' :
-  WorldSpec2.wf w -> 0 <= w_cur w -> w_cur w = w_main w -> 0 < w_next_blk w ->
-  (forall id, w_next_blk w <= id -> heap_live id w = false) ->
-  reproc_run_ex fuel argv o src s w = Ret x w' -> forall id, heap_live id w' = heap_live id w.
+(* THE THEOREM: a whole run leaves no descriptor behind *)
+Theorem run_ex_restores_descriptor_table fuel argv o src s w x w' :
+  WorldSpec2.wf w -> 0 <= w_cur w -> NB w ->
+  reproc_run_ex fuel argv o src s w = Ret x w' -> pr_fds (curp w') = pr_fds (curp w).
 Proof.
-  intros W Hpos Hmain Hnb Hhw E. unfold reproc_run_ex in E.
-  destruct (o_fork o). { apply ret_inv in E as [_ ->]. reflexivity. }
-  set (L := fun id => heap_live id w).
-  pose proof (hq_start w Hmain Hnb Hhw) as Hq0. fold L in Hq0.
+  intros W Hpos Hnb E.
+  assert (H0 : fqn (tb w) [] (w_cur w) w) by (split; [apply fq_start, W|constructor]).
+  destruct (run_ex_fq _ _ _ _ _ _ _ _ _ _ H0 Hpos Hnb E) as [[Hq _] _].
+  exact (fq_end _ _ _ _ Hq (fun x0 X => X)).
+Qed.
+
+(* ... and no block: the ledger is what it was, whatever else is live ([L]) *)
+Lemma run_ex_hq L fuel argv o src s w x w' :
+  WorldSpec2.wf w -> 0 <= w_cur w -> hq L [] w ->
+  reproc_run_ex fuel argv o src s w = Ret x w' -> hq L [] w'.
+Proof.
+  intros W Hpos Hq0 E. unfold reproc_run_ex in E.
+  destruct (o_fork o). { apply ret_inv in E as [_ ->]. exact Hq0. }
   apply bind_inv in E as (np & w1 & E1 & E). unfold reproc_new in E1.
   apply bind_inv in E1 as (b & w1' & Ea & E1).
   pose proof (pc_run _ _ _ _ (pc_heap_alloc _ _ _) W Ea) as P1.
   destruct (H_alloc _ _ _ _ _ _ _ _ Hq0 Ea) as [[-> H1]|[Hnz H1]].
-  { change (0 =? 0) with true in E1. cbv iota in E1. apply ret_inv in E1 as [-> ->]. apply ret_inv in E as [_ ->]. exact (hq_end _ _ H1). }
+  { change (0 =? 0) with true in E1. cbv iota in E1. apply ret_inv in E1 as [-> ->]. apply ret_inv in E as [_ ->]. exact H1. }
   destruct (Z.eqb_spec b 0); [contradiction|]. apply ret_inv in E1 as [-> ->].
   assert (C1 : w_cur w1' = w_cur w) by apply P1.
   assert (Lb : L b = false). { destruct H1 as (_ & _ & _ & Ho & _). apply (Ho b). cbn. rewrite Z.eqb_refl. reflexivity. }
@@ -105,10 +75,10 @@ Proof.
   apply bind_inv in E as ([r2 p2] & w2 & E2 & E). cbv beta iota in E.
   pose proof (reproc_start_hq _ _ _ _ _ _ _ _ _ _ ltac:(apply P1) ltac:(rewrite C1; exact Hpos) H1' Hk Hh E2) as H2.
   pose proof (post_reproc_start_blk _ _ _ _ _ _ _ _ E2) as B2. cbn [snd h_blk rp_new] in B2.
-  assert (Fin : forall p3 w3 (v : Z * sinkst), hq L' [] w3 -> h_blk p3 = b -> (reproc_destroy p3 ;> ret v) w3 = Ret x w' -> forall id, heap_live id w' = heap_live id w).
+  assert (Fin : forall p3 w3 (v : Z * sinkst), hq L' [] w3 -> h_blk p3 = b -> (reproc_destroy p3 ;> ret v) w3 = Ret x w' -> hq L [] w').
   { intros p3 w3 v H3 B3 E3. apply bind_inv in E3 as (u & w4 & E4 & E3). apply ret_inv in E3 as [_ ->].
     pose proof (O_reproc_destroy _ _ _ _ _ H3 ltac:(rewrite B3; unfold L'; rewrite Z.eqb_refl; apply orb_true_r) ltac:(rewrite B3; exact Hnz) E4) as H4.
-    intros id. rewrite (hq_end _ _ H4 id), B3. unfold L'. fold (L id).
+    eapply hq_ext0; [|exact H4]. intros id. cbn beta. rewrite B3. unfold L'.
     destruct (Z.eqb_spec id b) as [->|]; cbn [negb]; [rewrite Lb; reflexivity|]. rewrite orb_false_r, andb_true_r. reflexivity. }
   destruct (r2 <? 0); [exact (Fin _ _ _ H2 B2 E)|].
   apply bind_inv in E as ([[r3 p3] s3] & w3 & E3 & E). cbv beta iota in E.
@@ -117,4 +87,12 @@ Proof.
   apply bind_inv in E as ([r4 p4] & w4 & E4 & E). cbv beta iota in E.
   pose proof (O_reproc_stop _ _ _ _ _ _ _ H3 E4) as H4. pose proof (post_reproc_stop_blk _ _ _ _ _ E4) as B4. cbn [snd] in B4.
   refine (Fin _ _ _ H4 _ E). congruence.
+Qed.
+Theorem run_ex_releases_memory fuel argv o src s w x w' :
+  WorldSpec2.wf w -> 0 <= w_cur w -> w_cur w = w_main w -> 0 < w_next_blk w ->
+  (forall id, w_next_blk w <= id -> heap_live id w = false) ->
+  reproc_run_ex fuel argv o src s w = Ret x w' -> forall id, heap_live id w' = heap_live id w.
+Proof.
+  intros W Hpos Hmain Hnb Hhw E.
+  exact (hq_end _ _ (run_ex_hq _ _ _ _ _ _ _ _ _ W Hpos (hq_start w Hmain Hnb Hhw) E)).
 Qed.
